@@ -120,7 +120,8 @@ class C05(Prop):
     lean_exe = "c05_driver"
     harness = "h_buffer.c"
     theorems = ["EaselModel.Props.C05." + t for t in (
-        "open_wf", "refill_wf", "refill_guarantee", "getLine_refines", "countline_pagesize_independent",
+        "open_wf", "refill_wf", "refill_guarantee", "getLine_refines", "fetchLine_refines", "read_refines",
+        "getToken_refines", "fetchToken_refines", "lines_partition", "getLine_keeps_anchor", "countline_pagesize_independent",
         "stable_ptr_valid_partial", "stable_ptr_valid_fails_at")]
     claimed = False
     diverge_is_violation = False
